@@ -82,6 +82,7 @@ func run(o *options) int {
 	}
 	p.Cs = cs
 	p.Known = loadKnown(o.verif)
+	p.locals = loadLocals(o.verif)
 	loadSecs := time.Since(start).Seconds()
 
 	// select units
@@ -238,8 +239,28 @@ func run(o *options) int {
 	} else {
 		os.MkdirAll(dir, 0o755)
 	}
+	if o.updateRegistry {
+		reg := loadLocals(o.verif)
+		for _, u := range units {
+			if u.fn != nil && !u.Stale {
+				fn := u.fn
+				if fn.Origin() != nil {
+					fn = fn.Origin()
+				}
+				if k := p.keyOfFn[fn]; k != "" {
+					reg[k] = localDefs(fn)
+				} else if k := p.keyOfFn[u.fn]; k != "" {
+					reg[k] = localDefs(u.fn)
+				}
+			}
+		}
+		saveLocals(o.verif, reg)
+	}
+	for r := range p.renames {
+		fmt.Printf("NOTE: %s\n", r)
+	}
 	solveStart := time.Now()
-	dischargeAll(units, dir, o.timeout, o.seed, o.workers)
+	dischargeAll(units, dir, o.timeout, o.seed, o.workers, o.prop)
 	solveSecs := time.Since(solveStart).Seconds()
 
 	return report(o, p, units, loadSecs, genSecs, solveSecs, time.Since(start).Seconds())
